@@ -735,6 +735,10 @@ fn scripted() -> Vec<CaseSpec> {
         // plugins configured twice under the same name: one plugin_cmd = one reply (a stray frame would answer the next command)
         mk(false, "awaited", vec![step("open", "ok_plugins_dup", ""), step("plugin_cmd", "ft_cmd", ""), step("fs", "stat_ok", ""), step("plugin_cmd", "rw_cmd", ""), step("pause", "", ""), step("plugin_cmd", "ft_cmd", ""), step("plugin_cmd", "noplugin", ""), step("resume", "", ""), step("plugin_cmd", "rw_cmd", ""), step("close", "", ""), step("plugin_cmd", "ft_cmd", ""), step("open", "ok_plugins", ""), step("plugin_cmd", "rw_cmd", ""), step("plugin_cmd", "ft_cmd", ""), step("close", "", "")]),
         mk(false, "pipelined", vec![step("open", "ok_plugins_dup", ""), step("plugin_cmd", "ft_cmd", ""), step("plugin_cmd", "rw_cmd", ""), step("stream", "ok", ""), step("plugin_cmd", "ft_cmd", ""), step("stop", "", "none"), step("plugin_cmd", "rw_cmd", ""), step("close", "", "")]),
+        // several queries ending in the same pass of the server loop (registered while paused / pipelined), with and without a stream behind them
+        mk(false, "awaited", vec![step("open", "ok", ""), step("wait", "", ""), step("pause", "", ""), step("query", "ok", ""), step("query", "ok_filt", ""), step("stream", "ok", ""), step("resume", "", ""), step("sleep", "300", ""), step("stream_change_window", "ok", "h3"), step("stream_search", "ok", "h3"), step("stop", "", "h3"), step("close", "", "")]),
+        mk(false, "awaited", vec![step("open", "ok", ""), step("wait", "", ""), step("pause", "", ""), step("query", "ok", ""), step("query", "ok", ""), step("query", "ok_filt", ""), step("resume", "", ""), step("sleep", "300", ""), step("fs", "stat_ok", ""), step("stream", "ok", ""), step("stop", "", "h4"), step("close", "", "")]),
+        mk(false, "pipelined", vec![step("open", "ok", ""), step("wait", "", ""), step("stream", "ok", ""), step("query", "ok", ""), step("query", "ok_filt", ""), step("query", "ok", ""), step("stream", "ok_filt", ""), step("sleep", "300", ""), step("stream_search", "ok", "h1"), step("stream_search", "ok", "h5"), step("stop", "", "h5"), step("stop", "", "h1"), step("close", "", "")]),
         // FileTransfer `save`: failing variants before, the succeeding ones after the transfers are parsed, repeated, then the session goes on
         mk(false, "awaited", vec![step("open", "ok_ft", ""), step("plugin_cmd", "save_badidx", ""), step("plugin_cmd", "save_noparams", ""), step("sleep", "700", ""), step("plugin_cmd", "save_ok", ""), step("pause", "", ""), step("plugin_cmd", "save_ok2", ""), step("plugin_cmd", "save_ok", ""), step("plugin_cmd", "save_incomplete", ""), step("plugin_cmd", "save_unwritable", ""), step("plugin_cmd", "save_noctx", ""), step("resume", "", ""), step("stream", "ok", ""), step("plugin_cmd", "save_ok2", ""), step("close", "", ""), step("plugin_cmd", "save_ok", ""), step("open", "ok_ft", ""), step("plugin_cmd", "save_ok", ""), step("close", "", "")]),
         mk(false, "awaited", vec![step("open", "ok_ft_nosave", ""), step("sleep", "700", ""), step("plugin_cmd", "save_ok", ""), step("plugin_cmd", "save_badidx", ""), step("fs", "stat_ok", ""), step("close", "", ""), step("open", "ok_ft_auto", ""), step("sleep", "700", ""), step("plugin_cmd", "save_ok", ""), step("plugin_cmd", "save_ok2", ""), step("pause", "", ""), step("close", "", ""), step("open", "ok", ""), step("plugin_cmd", "save_ok", ""), step("close", "", "")]),
